@@ -69,11 +69,16 @@ package netconf
 
 // ---- C03: framing ----------------------------------------------------------------------------------------
 
+// selfClosed(b): what the self-closing rewrite makes of b (its body is regex-driven and not verified)
+//@ spec selfClosed(b []byte) []byte
 //@ func ForceSelfClosingTags
 //@   noverify
 //@   pure
+//@   ensures result === selfClosed(b)
 
 //@ func (*message).serialize [C03]
+//@   ensures #each-option-changes-only-what-it-names result.1 == nil && !forceSelfClosingTags ==> result.0.rawXML === (excludeHeader ? "" : xmlHeader) ++ xmlOf(box("*netconf.message", m))
+//@   ensures #self-closing-rewrite-applies-to-the-whole-document result.1 == nil && forceSelfClosingTags ==> result.0.rawXML === selfClosed((excludeHeader ? "" : xmlHeader) ++ xmlOf(box("*netconf.message", m)))
 //@   modifies alloc()
 //@   ensures #fresh result.1 == nil ==> fresh(result.0)
 //@   ensures #nil-on-error result.1 != nil ==> result.0 == nil
@@ -115,3 +120,10 @@ package netconf
 //@   requires RI(d.Channel.Q) && d.Channel.Errs != d.Channel.Q.depthChan && d.errs != d.Channel.Q.depthChan && d.done != d.Channel.Q.depthChan
 //@   requires d.messages != nil && d.subscriptions != nil
 //@   ensures #reader-started-only-on-success-with-a-settled-version result == nil ==> (d.SelectedVersion == "1.0" || d.SelectedVersion == "1.1")
+
+// ---- C03: sendRPC hands serialize the driver's settings, each in its own place, and writes exactly the framed bytes -------
+//@ func (*Driver).sendRPC [C03]
+//@   noverify
+//@   flows [C03] #self-closing-setting-goes-to-its-parameter d.ForceSelfClosingTags only to serialize#1.forceSelfClosingTags
+//@   flows [C03] #header-setting-goes-to-its-parameter d.ExcludeHeader only to serialize#1.excludeHeader
+//@   flows [C03] #version-goes-to-its-parameter d.SelectedVersion only to serialize#1.v, NewNetconfResponse#1.version
